@@ -266,14 +266,10 @@ theorem stack_empty_iff {s : Fmt.St} {t : TState} {dt : Option Str} (h : Sim s t
 
 /-! ### one callback -/
 
-/-- what the stepwise simulation needs of one token: the attribute values the formatter model strips with
-    `str.strip()` carry no non-ASCII white space (`FmtDomain`, AttrStores), and the two "is this data blank"
-    tests agree. -/
-def TokDom : Token → Prop
-  | .start _ a => FmtDomain a
-  | .startend _ a => FmtDomain a
-  | .data d => isBlank d = (Fmt.pyStrip d).isEmpty
-  | _ => True
+/-- the two "is this data blank" tests are one: `not data.strip()` on both sides (`pyStrip = strip`, AttrStores; before
+    `isWs` became all of `str.isspace()` this was a side condition on the tokens, `TokDom`) -/
+theorem isBlank_eq_pyStrip (d : Str) : isBlank d = (Fmt.pyStrip d).isEmpty := by
+  rw [pyStrip_eq]; rfl
 
 /-- the related outcomes of one callback / of a run -/
 def SimOut (dt : Option Str) : Outcome TState → Except Fmt.Err Fmt.St → Prop
@@ -292,13 +288,13 @@ theorem noRoot_of_sim {s : Fmt.St} {t : TState} {dt : Option Str} (h : Sim s t d
   rw [this]
   cases t.stack.isEmpty <;> cases t.root <;> rfl
 
-theorem mkStore_intake {l : List Attr} (h : FmtDomain l) : Fmt.mkStore l {} = toF (intake l AttrState.empty) := by
-  rw [empty_toF]; exact mkStore_toF l inv_empty h
+theorem mkStore_intake (l : List Attr) : Fmt.mkStore l {} = toF (intake l AttrState.empty) := by
+  rw [empty_toF]; exact mkStore_toF l inv_empty
 
 theorem sim_handleStart {s : Fmt.St} {t : TState} {dt : Option Str} (h : Sim s t dt) (n : Str) (a : List Attr)
-    (sc : Bool) (ha : FmtDomain a) : SimOut dt (handleStart t n a sc) (Fmt.Plain.handleStart s n a sc) := by
+    (sc : Bool) : SimOut dt (handleStart t n a sc) (Fmt.Plain.handleStart s n a sc) := by
   unfold handleStart Fmt.Plain.handleStart
-  simp only [mkStore_intake ha, noRoot_of_sim h, stack_empty_iff h, fmt_isVoid, Bool.not_not]
+  simp only [mkStore_intake a, noRoot_of_sim h, stack_empty_iff h, fmt_isVoid, Bool.not_not]
   by_cases hg : (!t.hasRoot || !t.stack.isEmpty) = true
   · have hg' : (t.hasRoot && t.stack.isEmpty) = false := by
       cases h1 : t.hasRoot <;> cases h2 : t.stack.isEmpty <;> simp [h1, h2] at hg ⊢
@@ -322,9 +318,9 @@ theorem sim_verbatim {s : Fmt.St} {t : TState} {dt : Option Str} (h : Sim s t dt
   · simp only [he, Bool.false_eq_true, if_false]
     exact sim_appendText h (by intro h0; simp [h0] at he) true x
 
-theorem sim_data {s : Fmt.St} {t : TState} {dt : Option Str} (h : Sim s t dt) (d : Str)
-    (hd : isBlank d = (Fmt.pyStrip d).isEmpty) :
+theorem sim_data {s : Fmt.St} {t : TState} {dt : Option Str} (h : Sim s t dt) (d : Str) :
     SimOut dt (stepT t (.data d)) (Fmt.Plain.handleData s d) := by
+  have hd := isBlank_eq_pyStrip d
   unfold Fmt.Plain.handleData
   simp only [stepT]
   by_cases he : d.isEmpty = true
@@ -355,14 +351,14 @@ theorem truthy_eq (dt : Option Str) (d : Str) :
   | some d0 => cases d0 <;> rfl
 
 /-- **one callback**: related states go to related outcomes -/
-theorem sim_step {s : Fmt.St} {t : TState} {dt : Option Str} (h : Sim s t dt) (tok : Token) (hd : TokDom tok) :
+theorem sim_step {s : Fmt.St} {t : TState} {dt : Option Str} (h : Sim s t dt) (tok : Token) :
     SimOut (stepD dt tok) (stepT t tok) (Fmt.Plain.step s (tokF tok)) := by
   have keep : ∀ {dt'}, dt' = dt → Sim s t dt' := fun e => e ▸ h
   cases tok with
-  | start n a => exact sim_handleStart h n a false hd
-  | startend n a => exact sim_handleStart h n a true hd
+  | start n a => exact sim_handleStart h n a false
+  | startend n a => exact sim_handleStart h n a true
   | end_ n => exact sim_handleEnd h n
-  | data d => exact sim_data h d hd
+  | data d => exact sim_data h d
   | entity e => exact sim_verbatim h _
   | charref c => exact sim_verbatim h _
   | comment c => exact sim_verbatim h _
@@ -399,10 +395,10 @@ def SimRun : Outcome BState → Except Fmt.Err Fmt.St → Prop
 
 /-- **a whole pass**, from any related pair of states -/
 theorem sim_run : ∀ (ts : List Token) {s : Fmt.St} {b : BState}, Sim s b.tree b.doctype →
-    (∀ tok ∈ ts, TokDom tok) → SimRun (run b ts) (Fmt.Plain.run (ts.map tokF) s)
-  | [], _, _, h, _ => h
-  | tok :: ts, s, b, h, hd => by
-    have h1 := sim_step h tok (hd tok (by simp))
+    SimRun (run b ts) (Fmt.Plain.run (ts.map tokF) s)
+  | [], _, _, h => h
+  | tok :: ts, s, b, h => by
+    have h1 := sim_step h tok
     rw [run_unfold]
     simp only [List.map_cons, Fmt.Plain.run]
     cases ho : stepT b.tree tok with
@@ -410,7 +406,7 @@ theorem sim_run : ∀ (ts : List Token) {s : Fmt.St} {b : BState}, Sim s b.tree 
       cases hr : Fmt.Plain.step s (tokF tok) with
       | ok s' =>
         rw [ho, hr] at h1
-        exact sim_run ts (b := ⟨t', stepD b.doctype tok⟩) h1 (fun x hx => hd x (by simp [hx]))
+        exact sim_run ts (b := ⟨t', stepD b.doctype tok⟩) h1
       | error e => rw [ho, hr] at h1; exact h1.elim
     | multipleRoot =>
       cases hr : Fmt.Plain.step s (tokF tok) with
@@ -543,47 +539,6 @@ theorem wrapToks_eq (toks : List Token) (h : LeadDeclOK toks) :
   | .entity _ :: r, _ => simp [leadDoctype, Fmt.wrapToks, tokF, wrapperName, Fmt.wrapper]
   | .charref _ :: r, _ => simp [leadDoctype, Fmt.wrapToks, tokF, wrapperName, Fmt.wrapper]
 
-theorem tokDom_wrapToks {toks : List Token} (h : ∀ tok ∈ toks, TokDom tok) : ∀ tok ∈ wrapToks toks, TokDom tok := by
-  have hw : TokDom (.start wrapperName []) := by
-    simp only [TokDom, FmtDomain]; intro p hp; simp at hp
-  have he : TokDom (.end_ wrapperName) := trivial
-  intro tok ht
-  unfold wrapToks at ht
-  cases hl : leadDoctype toks with
-  | none =>
-    rw [hl] at ht
-    simp only [List.mem_cons, List.mem_append, List.not_mem_nil, or_false] at ht
-    rcases ht with (rfl | ht) | rfl
-    · exact hw
-    · exact h tok ht
-    · exact he
-  | some pr =>
-    obtain ⟨pre, r⟩ := pr
-    rw [hl] at ht
-    have hsub : ∀ x, x ∈ pre ∨ x ∈ r → x ∈ toks := by
-      intro x hx
-      unfold leadDoctype at hl
-      split at hl
-      · simp only [Option.some.injEq, Prod.mk.injEq] at hl
-        obtain ⟨rfl, rfl⟩ := hl
-        simpa using hx
-      · split at hl
-        · simp only [Option.some.injEq, Prod.mk.injEq] at hl
-          obtain ⟨rfl, rfl⟩ := hl
-          simp only [List.mem_cons, List.not_mem_nil, or_false] at hx ⊢
-          rcases hx with (hx | hx) | hx
-          · exact Or.inl hx
-          · exact Or.inr (Or.inl hx)
-          · exact Or.inr (Or.inr hx)
-        · cases hl
-      · cases hl
-    simp only [List.mem_cons, List.mem_append, List.not_mem_nil, or_false] at ht
-    rcases ht with (ht | rfl | ht) | rfl
-    · exact h tok (hsub tok (Or.inl ht))
-    · exact hw
-    · exact h tok (hsub tok (Or.inr ht))
-    · exact he
-
 /-! ### `feed`: both passes -/
 
 /-- what a state of the formatter model's plain parser shows of the document (ghost flags erased) -/
@@ -601,21 +556,19 @@ theorem view_of_sim {s : Fmt.St} {b : BState} (h : Sim s b.tree b.doctype) : vie
   unfold viewF viewB BState.doc
   rw [h.doctype, sim_root h]
 
-/-- what a token list must satisfy for the two `feed`s to be compared -/
-structure FeedDom (toks : List Token) : Prop where
-  each : ∀ tok ∈ toks, TokDom tok
-  lead : LeadDeclOK toks
-
 /-- one pass from the initial states -/
-theorem sim_pass (ts : List Token) (hd : ∀ tok ∈ ts, TokDom tok) :
+theorem sim_pass (ts : List Token) :
     SimRun (run BState.init ts) (Fmt.Plain.run (ts.map tokF) {}) :=
-  sim_run ts (b := BState.init) sim_init hd
+  sim_run ts (b := BState.init) sim_init
 
-theorem feed_agree (toks : List Token) (hd : FeedDom toks) :
+/-- What a token list must satisfy for the two `feed`s to be compared is `LeadDeclOK` alone: a leading declaration is a
+    doctype (the tokenizer calls `handle_decl` for nothing else).  (The former `FeedDom` also asked that no token carry
+    non-ASCII white space where one model stripped it and the other did not; the models now strip alike.) -/
+theorem feed_agree (toks : List Token) (hd : LeadDeclOK toks) :
     (Fmt.Plain.feed (toks.map tokF)).map viewF = feedViewF (feedTokens toks) := by
-  have h1 := sim_pass toks hd.each
-  have h2 := sim_pass (wrapToks toks) (tokDom_wrapToks hd.each)
-  rw [wrapToks_eq toks hd.lead] at h2
+  have h1 := sim_pass toks
+  have h2 := sim_pass (wrapToks toks)
+  rw [wrapToks_eq toks hd] at h2
   unfold Fmt.Plain.feed feedTokens
   cases ho : run BState.init toks with
   | ok b =>
